@@ -17,7 +17,7 @@
    the three formats (JSON Schema: since the fixes that unwrap json.Number in walkNumber and walkList). *)
 From Coq Require Import List String ZArith Bool.
 From Cog Require Import Model.IR Model.Json Model.GoSemBase Model.GoSemDecode Model.Ctor Model.PySem Model.CtorSpec
-  Model.Passes Model.PassesChain Model.Process Gen.Chains_gen Proofs.CtorProofs.
+  Model.Passes Model.PassesChain Model.Process Gen.Chains_gen Proofs.CtorProofs Proofs.CtorEnumProofs.
 Import ListNotations.
 Local Open Scope string_scope.
 
@@ -30,8 +30,8 @@ Theorem ctor_defaults_go_refuted : ~ ctor_defaults_go_statement.
 Proof. exact CtorProofs.ctor_defaults_go_refuted. Qed.
 Print Assumptions ctor_defaults_go_refuted.
 
-(* refuted through the real pass chain: the default of an anonymous enumeration (AnonymousEnumToExplicitType) and
-   of a union (DisjunctionToType) is gone when the Go jenny runs *)
+(* refuted through the real pass chain: the default of a union (DisjunctionToType) is gone when the Go jenny runs
+   (that of an anonymous enumeration is kept since /repo 4d29ba4: ctor_defaults_go_chain_enum_witness below) *)
 Definition ctor_defaults_go_chain_statement : Prop :=
   forall pre post p n fs j, process chain_go pre = Ok post -> plain_struct_object pre p n = Some fs ->
     go_ctor post p n = COk j -> all_declared_hold fs j = true.
@@ -70,6 +70,38 @@ Theorem ctor_defaults_py_partial : forall pctx p n fs j,
   plain_struct_object pctx p n = Some fs -> py_ctor pctx p n = POk j -> simple_fields_hold fs j = true.
 Proof. exact CtorProofs.ctor_defaults_py_partial. Qed.
 Print Assumptions ctor_defaults_py_partial.
+
+(* ---- extension: references to enumerations (what chain_go makes of an anonymous enumeration) ----
+   held_field ctx fld = simple_field fld || enumref_field ctx fld, where enumref_field asks for a reference to an
+   enumeration object whose default IS one of the members (same dynamic Go type and value); held_expected is the
+   declared value, resp. the selected member's value (Proofs/CtorEnumProofs.v). *)
+Theorem ctor_defaults_go_partial_enum : forall ctx p n fs j,
+  plain_struct_object ctx p n = Some fs -> go_ctor ctx p n = COk j -> held_fields_hold ctx fs j = true.
+Proof. exact CtorEnumProofs.ctor_defaults_go_partial_enum. Qed.
+Print Assumptions ctor_defaults_go_partial_enum.
+
+Theorem ctor_defaults_py_partial_enum : forall pctx p n fs j,
+  plain_struct_object pctx p n = Some fs -> py_ctor pctx p n = POk j -> held_fields_hold pctx fs j = true.
+Proof. exact CtorEnumProofs.ctor_defaults_py_partial_enum. Qed.
+Print Assumptions ctor_defaults_py_partial_enum.
+
+(* through the REAL chain_go: the pass keeps the default on the reference it creates, and on the witness schema
+   (`en: *"h" | "v"`, `un: string | bool | *"x"`) the post-chain field `en` is an enumref_field whose default NewRoot()
+   holds, while the union's default is still lost *)
+Theorem aete_keeps_default : forall spkg pkg cur sug a vs,
+  fst (aete_type spkg pkg cur sug (TEnum a vs)) = TRef (mk_attrs (nullable a) (dflt a) []) spkg (upper_camel_case sug).
+Proof. exact CtorEnumProofs.aete_keeps_default. Qed.
+Print Assumptions aete_keeps_default.
+
+Theorem ctor_defaults_go_chain_enum_witness :
+  process chain_go wit_pre = Ok wit_gpost /\
+  (exists fs, plain_struct_object wit_gpost "w" "Root" = Some fs /\
+              existsb (fun fld => (seqb (f_name fld) "en" && enumref_field wit_gpost fld)%bool) fs = true) /\
+  go_ctor wit_gpost "w" "Root" = COk wit_go_json /\
+  holds_member wit_go_json "en" (JStr "h") = true /\
+  holds_member wit_go_json "un" (JStr "x") = false.
+Proof. exact CtorEnumProofs.ctor_defaults_go_chain_enum_witness. Qed.
+Print Assumptions ctor_defaults_go_chain_enum_witness.
 
 (* ---- the two languages agree ---- *)
 Definition go_py_agree_statement : Prop :=
